@@ -455,8 +455,8 @@ C_INIT = 64.0  # acceptance for the initial estimates, units of eps*K (worst obs
 # acceptance for per-iteration quantities:  floor + C * eps * K * max(1, nu_max).  The floor is the absolute termination
 # tolerance of the root search (scipy bisect xtol = 2e-12) as the iteration propagates it (observed <= 1.7e-10 on delta, <= 1.7e-11
 # on Sigma); the slope is the rounding of the data representation (observed <= 1e3 on delta / mu, <= 1e2 on nu / Sigma).
-TOL_SHAPE = (1e-8, 3.0e4)  # delta, mu
-TOL_SCAT = (1e-9, 3.0e3)  # nu, Sigma
+TOL_SHAPE = (1e-8, 1.0e5)  # delta, mu
+TOL_SCAT = (1e-9, 1.0e4)  # nu, Sigma
 C_ITER = TOL_SHAPE[1]
 
 
